@@ -25,6 +25,19 @@ FIELD_ANN: dict[str, Any] = {
 }
 
 
+class _Duck:
+    """Not an Origin, but enough of one for id generation."""
+
+    fqn = "duck"
+
+
+def _field_ann() -> dict[str, Any]:
+    # the inherited built-in field `origin` is a field like any other ("every field, init or not")
+    from pyoak.origin import Origin
+
+    return {**FIELD_ANN, "origin": Origin}
+
+
 def _pool() -> list[tuple[str, Any]]:
     return [
         ("True", True), ("False", False), ("0", 0), ("1", 1), ("-1", -1), ("2**63", 2**63), ("1.5", 1.5), ("0.0", 0.0),
@@ -93,6 +106,7 @@ def _candidates() -> dict[str, list[tuple[str, Any]]]:
         "e": [("Color.BLUE", Color.BLUE), ("1", 1), ("'RED'", "RED")],
         "nc": [("5", 5), ("'x'", "x"), ("None", None), ("True", True)],
         "kid": [("None", None), ("VLeaf", leaf), ("VStr2", VStr2()), ("VSubLeaf", VSubLeaf(v=12)), ("1", 1)],
+        "origin": [("NO_ORIGIN", __import__("pyoak.origin", fromlist=["NO_ORIGIN"]).NO_ORIGIN), ("'x'", "x"), ("None", None), ("duck-typed object with .fqn", _Duck())],
         "kids": [("()", ()), ("(VLeaf,)", (VLeaf(v=13),)), ("(VStr2,)", (VStr2(a="q"),)), ("(VLeaf,None)", (VLeaf(v=14), None)), ("VLeaf", VLeaf(v=15))],
     }
 
@@ -105,6 +119,7 @@ def make_construct_harness(first_field: str):
 
         reset_all()
         cands = _candidates()
+        FIELD_ANN = _field_ann()  # noqa: N806
         names = list(FIELD_ANN)
         kw: dict[str, Any] = {}
         desc: dict[str, str] = {}
@@ -219,7 +234,7 @@ def hierarchy_harness(e):
     sys.modules[mod.__name__] = mod
     # class names are unique per path: the library admits one class per name
     tag = f"{_HIER_COUNT[0]}p{__import__('os').getpid()}"
-    exec(compile(_HIER_SRC.replace("_T_", tag), mod.__name__, "exec"), mod.__dict__)
+    exec(compile(_HIER_SRC.replace("_T_", tag), mod.__name__, "exec", dont_inherit=True), mod.__dict__)
     for base in ("HBase", "HSub", "HBadLate"):
         mod.__dict__[base] = mod.__dict__[base + tag]
     earlier = e.pick(["nothing", "HBase-checked", "HBase-unchecked", "HSub-checked", "ASTNode-checked", "HBase-then-HSub-checked"], "constructed_earlier")
@@ -303,7 +318,7 @@ def replay_obligation(payload):
 
 def spec(tier: str, seed: int) -> Spec:
     fams = [Family("pool-pairs", pool_harness, variables="selectors: annotation x pool value")]
-    for fname in FIELD_ANN:
+    for fname in _field_ann():
         fams.append(Family(f"construct-{fname}", make_construct_harness(fname), variables="selectors: one or two deviating fields and their values; lazy: config.RUNTIME_TYPE_CHECK"))
     fams.append(Family("class-hierarchy-history", hierarchy_harness, variables="selectors: which classes of a hierarchy were constructed earlier (checked or not), class, one or two fields and their values"))
     return Spec(
